@@ -15,9 +15,12 @@ rawcp = field('ConfigParser', '_config_parser', RCP)
 
 REG.add(Contract('<ext>', 'RawCP.has_section', params=[('self', T.Obj('RawCP')), ('section', T.Str)], result=T.Bool,
     ensures=lambda v, old, res: [res == has_sec(v.self, v.section)], external=True, note='configparser.has_section(name)', props=['C20']))
+n_opts = z3.Function('n_opts', RCP, StrS, IntS); sec_len = z3.Function('sec_len', SP, IntS)
 REG.add(Contract('<ext>', 'RawCP.__getitem__', params=[('self', T.Obj('RawCP')), ('key', T.Str)], result=T.Obj('SectionProxy'),
-    ensures=lambda v, old, res: [res == sec_of(v.self, v.key)], may_raise=lambda v: [('KeyError', z3.Not(has_sec(v.self, v.key)))],
-    external=True, note='parser[name]: the section proxy; KeyError when there is no such section', props=['C20']))
+    ensures=lambda v, old, res: [res == sec_of(v.self, v.key), sec_len(res) == n_opts(v.self, v.key)], may_raise=lambda v: [('KeyError', z3.Not(has_sec(v.self, v.key)))],
+    external=True, note='parser[name]: the section proxy (its length is the number of own options: options() override, C15); KeyError when there is no such section', props=['C14', 'C20']))
+REG.add(Contract('<ext>', 'SectionProxy.__len__', params=[('self', T.Obj('SectionProxy'))], result=T.Int, ensures=lambda v, old, res: [res == sec_len(v.self)], external=True,
+    note='len(section proxy)', props=['C14']))
 REG.add(Contract('<ext>', 'SectionProxy.__iter__', params=[('self', T.Obj('SectionProxy'))], result=T.List(T.Str),
     ensures=lambda v, old, res: [res == sec_keys(v.self)], external=True,
     note='iterating a section proxy yields its option names (after optionxform) in file order; the strict parser has already rejected equal names (A5)', props=['C20']))
